@@ -9,6 +9,7 @@ func init() { drivers["C09"] = runC09 }
 
 func runC09(c *ctxT) {
 	r := c.rng
+	quicBaseCases(c, c.rng.Fork())
 	// ---- fragmenting layers: reported MTU honest, fragments fit, payload intact ----
 	nFrag := c.scale(120, 1500)
 	for i := 0; i < nFrag; i++ {
